@@ -115,7 +115,9 @@ func logging(rep *kit.Report, root string) {
 		"status:200;write:x;ret:502:boom",
 		// the body handed over through the writer's optional methods (io.Copy from a plain reader, io.WriteString), which commit
 		// 200 like a first Write; then an error status, or after an informational header
-		"copy:50xc;ret:500:boom", "status:103;copy:22xc;ret:0", "wstr:x;ret:404", "copy:" + big + ";ret:0"}
+		"copy:50xc;ret:500:boom", "status:103;copy:22xc;ret:0", "wstr:x;ret:404", "copy:" + big + ";ret:0",
+		// an informational header, then a flush (which sends the implicit 200), then the body
+		"status:103;flush;write:x;ret:0"}
 	paths := []string{"/a/x", "/a/skip/y", "/a/skip", "/a/skipper", "/b", "/b/z", "/c", "/rw", "/teapot", "/int/q", "/priv/p", "/old", "/A/X", "/a/../b/w", "/plain.txt", "/missing"}
 	type job struct {
 		lc  logCfg
@@ -591,7 +593,7 @@ func caseSensitive(rep *kit.Report, root string) {
 
 func main() {
 	rep := kit.NewReport("C20", "exploration",
-		"logging: 8 log layouts (one, two same-scope, two same-scope around another scope, disjoint scopes, except, except and scope written as directories, except on the first of two, nested scopes) x every subset of size <=2 (thorough 3) of 11 wrapping directives x 22 inner behaviours x 13 paths x GET/POST x Accept-Encoding, new lines of every log file counted after every request and {status}/{size} compared with what the strict writer saw; rotation: two sites sharing one rolling file under 4 spellings of its name, every line counted over the file and its backups, lines after a rotation looked for in the current file; placeholders: every format of 3 atoms over 20 atoms (vocabulary, header/cookie/query/env lookups, unknown, escaped braces, text) x 9x9 request-supplied values containing placeholder syntax, against a single-pass reference; reloads: 10 layouts writing to a file (rolling or not, one or two logs on it), stdout, stderr or the default stream (alone, two logs on one stream, next to an errors log on the same stream) x every sequence of 4 (thorough 5) steps over {request, reload, reload refused at set-up, reload refused at start-up} followed by a request, every request's line counted at the destination when it is made and again at the end of the sequence; distinct_nontrivial = outcome classes")
+		"logging: 8 log layouts (one, two same-scope, two same-scope around another scope, disjoint scopes, except, except and scope written as directories, except on the first of two, nested scopes) x every subset of size <=2 (thorough 3) of 11 wrapping directives x 23 inner behaviours x 13 paths x GET/POST x Accept-Encoding, new lines of every log file counted after every request and {status}/{size} compared with what the strict writer saw; rotation: two sites sharing one rolling file under 4 spellings of its name, every line counted over the file and its backups, lines after a rotation looked for in the current file; placeholders: every format of 3 atoms over 20 atoms (vocabulary, header/cookie/query/env lookups, unknown, escaped braces, text) x 9x9 request-supplied values containing placeholder syntax, against a single-pass reference; reloads: 10 layouts writing to a file (rolling or not, one or two logs on it), stdout, stderr or the default stream (alone, two logs on one stream, next to an errors log on the same stream) x every sequence of 4 (thorough 5) steps over {request, reload, reload refused at set-up, reload refused at start-up} followed by a request, every request's line counted at the destination when it is made and again at the end of the sequence; distinct_nontrivial = outcome classes")
 	kit.Init()
 	kit.RegisterProbe()
 	kit.Log.Off.Store(true)
